@@ -373,62 +373,97 @@ def run(chk):
     report(chk, cases, meta, codes)
 
 
+def label_of(sc):
+    cfg = sc['cfg']
+    return '%s/%s/%s' % (cfg[0], cfg[1], 'b64' if cfg[2] else 'raw')
+
+
+def describe(sc, out, kind, info):
+    """(signature, text) of a failing case."""
+    label = label_of(sc)
+    if kind == 'stream':
+        what = classify(sc, out, info)
+        return ('c02-%s-%s' % (info, what),
+                '%s %s stream: what the peer\'s handlers / callbacks received differs from what was sent (%s); '
+                'sent=%s received=%s escaped=%r' % (label, info, what, _short(out['sent'][info]), _short(out['rx'][info]),
+                                                    out['escaped'][:2]))
+    op = sc['ops'][info]
+    res = out['results'][info]
+    if kind == 'call':
+        return ('c02-%s-call-result' % op['dir'],
+                '%s: %s call() returned %r for handler return value %r' % (label, op['dir'], res['api'], op['ret']))
+    return ('c02-%s-callback-args' % op['dir'],
+            '%s: callback of a %s emit received %r for handler return value %r' % (label, op['dir'], res['cb'], op['ret']))
+
+
+def _short(x):
+    r = repr(x)
+    return r if len(r) < 400 else r[:400] + '...'
+
+
 def report(chk, cases, meta, codes):
+    """One violation per failing scenario, after minimisation to a single operation when one
+    operation alone reproduces it (all single-operation re-runs are evaluated in one batch)."""
+    failing = {}
     for idx, code in sorted(codes.items()):
-        sc, out, kind, info = meta[idx]
-        cfg = sc['cfg']
-        label = '%s/%s/%s' % (cfg[0], cfg[1], 'b64' if cfg[2] else 'raw')
-        if code & 2:
-            if kind == 'stream':
-                what = classify(sc, out, info)
-                sig = 'c02-%s-%s' % (info, what)
-                text = ('%s %s: what the peer handlers received differs from what was sent (%s); escaped=%r'
-                        % (label, info, what, out['escaped'][:2]))
-                small = minimize(sc, info)
-                chk.violation(sig, text, {'scenario_repr': repr(clean(small or sc)), 'minimized': small is not None})
-            elif kind == 'call':
-                op = sc['ops'][info]
-                chk.violation('c02-%s-call-result' % op['dir'],
-                              '%s: call() returned %r for handler return value %r'
-                              % (label, out['results'][info]['api'], op['ret']),
-                              {'scenario_repr': repr(clean(dict(sc, ops=[op]))), 'case': cases[idx]})
-            else:
-                op = sc['ops'][info]
-                chk.violation('c02-%s-callback-args' % op['dir'],
-                              '%s: callback received %r for handler return value %r'
-                              % (label, out['results'][info]['cb'], op['ret']),
-                              {'scenario_repr': repr(clean(dict(sc, ops=[op]))), 'case': cases[idx]})
-        elif code & 1:
-            small = minimize(sc, info, want=2) if kind == 'stream' else None
-            if small is not None:
-                chk.violation('c02-%s-found-by-correspondence' % info,
-                              '%s: model and implementation disagree and a single message violates the property' % label,
-                              {'scenario_repr': repr(clean(small)), 'minimized': True})
-            else:
-                chk.broken_obligation('correspondence: Pipe.v and the real %s pair disagree on the %s stream '
-                                      '(frames or reassembly)' % (label, info))
-                chk.violation('c02-%s-correspondence' % info, 'model E2E/Pipe.v and implementation disagree (%s)' % label,
-                              {'scenario_repr': repr(clean(sc)), 'case': cases[idx]}, no_input=True)
+        sc = meta[idx][0]
+        failing.setdefault(id(sc), [sc, []])[1].append((idx, code))
+    todo = list(failing.values())
+    # spread the minimisation budget over the configurations
+    seen_cfg, first, rest = set(), [], []
+    for item in todo:
+        key = tuple(item[0]['cfg'])
+        (first if key not in seen_cfg else rest).append(item)
+        seen_cfg.add(key)
+    budget = (first + rest)[:16]
+    minimal = minimize_all([item[0] for item in budget])
+    for n, (sc, hits) in enumerate(todo):
+        bits = 0
+        for _, c in hits:
+            bits |= c
+        small = minimal.get(id(sc))
+        if small is not None:
+            s1, out1, kind1, info1, code1 = small
+            if code1 & 2:
+                sig, text = describe(s1, out1, kind1, info1)
+                chk.violation(sig, text + ' [minimised to one operation]', {'scenario_repr': repr(clean(s1))})
+                continue
+        idx, code = next(((i, c) for i, c in hits if c & 2), hits[0])
+        _, out, kind, info = meta[idx]
+        if bits & 2:
+            sig, text = describe(sc, out, kind, info)
+            chk.violation(sig, text, {'scenario_repr': repr(clean(sc)), 'case': cases[idx]})
+        else:
+            chk.broken_obligation('correspondence: E2E/Pipe.v and the real %s pair disagree (frames on the wire or '
+                                  'reassembly), no property violation found on single operations' % label_of(sc))
+            chk.violation('c02-%s-correspondence' % (info if kind == 'stream' else kind),
+                          'model E2E/Pipe.v and implementation disagree (%s)' % label_of(sc),
+                          {'scenario_repr': repr(clean(sc)), 'case': cases[idx]}, no_input=True)
 
 
-def minimize(sc, d, want=2):
-    """Smallest single-operation scenario (same configuration) whose stream in direction d still
-    shows the bit `want`."""
-    cands, terms = [], []
-    for s in single_op_scenarios(sc):
-        out = run_scenario(s)
-        if 'error' in out:
-            continue
-        for dd in ('c2s', 's2c'):
-            cands.append(s)
-            terms.append(stream_case(s, out, dd))
+def minimize_all(scenarios):
+    """scenario id -> (single-op scenario, out, kind, info, code) for the smallest single
+    operation that still fails (property bit preferred), or nothing."""
+    terms, owner = [], []
+    for sc in scenarios:
+        for s in single_op_scenarios(sc):
+            out = run_scenario(s)
+            if 'error' in out:
+                continue
+            for term, kind, info in cases_of(s, out):
+                terms.append(term)
+                owner.append((id(sc), s, out, kind, info))
     if not terms:
-        return None
+        return {}
     codes, errors = coqio.eval_cases('c02_min', IMPORTS, '', 'c02case', terms, 'c02_eval', shard=40)
-    hits = [cands[i] for i, c in sorted(codes.items()) if c & want]
-    if not hits:
-        return None
-    return min(hits, key=lambda s: len(repr(s['ops'][0]['data'])) + len(repr(s['ops'][0]['ret'])))
+    best = {}
+    for i, c in sorted(codes.items()):
+        sid, s, out, kind, info = owner[i]
+        size = len(repr(s['ops'][0]['data'])) + len(repr(s['ops'][0]['ret']))
+        rank = (0 if c & 2 else 1, size)
+        if sid not in best or rank < best[sid][0]:
+            best[sid] = (rank, (s, out, kind, info, c))
+    return {k: v[1] for k, v in best.items()}
 
 
 def clean(sc):
